@@ -90,6 +90,27 @@ impl VectorTileLayer {
 			}
 //@end
 }
+//@extract struct file="versatiles_geometry/src/vector_tile/tile.rs" name="VectorTile"
+//@end
+impl VectorTile {
+	pub fn default() -> (r: VectorTile) ensures r.layers@.len() == 0 { VectorTile { layers: Vec::new() } }   // #[derive(Default)]
+//@extract fn file="versatiles_geometry/src/vector_tile/tile.rs" scope="impl VectorTile" name="from_blob"
+//@rewrite "ValueReaderSlice::new_le(blob.as_slice())" => "ValueReaderSlice::new_le_from(blob)" R7
+//@rewrite "VectorTileLayer::read( reader .get_pbf_sub_reader()? .as_mut(), )" => "VectorTileLayer::read(&mut reader.get_pbf_sub_reader()?)" R7
+//@ret r
+//@spec
+		// arbitrary bytes (< 4 GiB): a tile or an error; never a panic, terminates (C19)
+		requires blob@.len() < u32::MAX, obeys_key_model::<AbsStr>(), obeys_key_model::<GeoValue>()
+//@loop 1
+			invariant reader.wf(), reader.len < u32::MAX, obeys_key_model::<AbsStr>(), obeys_key_model::<GeoValue>(),
+			decreases reader.len - reader.cursor.pos
+//@end
+}
+impl ValueReaderSlice {
+	// ValueReaderSlice::new_le(blob.as_slice()): a reader over the blob's bytes, positioned at 0
+	#[verifier::external_body]
+	pub fn new_le_from(blob: &Blob) -> (r: ValueReaderSlice) ensures r.wf(), r.cursor.pos == 0, r.cursor.data@ == blob@, r.len == blob@.len() { unimplemented!() }
+}
 } // verus!
 #[derive(Clone, PartialEq, Eq, Hash, Debug)] pub struct AbsStr { s: String }
 #[derive(Clone, PartialEq, Eq, Hash, Debug)] pub struct GeoValue { v: u8 }
